@@ -654,8 +654,7 @@ func c14R7(c *Ctx) {
 			return
 		}
 		if n, _ := fieldAddrName(st.Addr); n == "TrzszRelay.clientIsWindows" {
-			b, isB := st.Val.(*ssa.BinOp)
-			if isB && b.Op == token.EQL && isFieldLoad("Newline")(b.X) && isConstStrV("!\n")(b.Y) && domI(st, sa[0].(ssa.Instruction)) {
+			if factCmp([]fact{{V: st.Val, Pol: true}}, token.EQL, isFieldLoad("Newline"), isConstStrV("!\n")) && domI(st, sa[0].(ssa.Instruction)) {
 				okWin = true
 			}
 		}
